@@ -709,31 +709,30 @@ open Gemato.Cli in
     the save step, the only producer of file-system writes, is never reached -/
 theorem C06_scan_error_fails_update (w : World) (post : Str → Option FileMeta) (top path : Str) (create : Bool)
     (prof : Prof.Profile) (xdev : Bool) (o : U.Opts) (setTs : Option (Ts × Bool)) (so : U.SaveOpts) (doSave : Bool)
-    (s : U.St) (e : Err) (hopen : U.openForUpdate w top create prof xdev = .ok s)
-    (hscan : U.updateDir w s path o = .error e) :
-    updateCommand w post top path create prof xdev o setTs so doSave = .error e := by
-  simp [updateCommand, hopen, hscan]
+    (sign : SignCfg) (s : U.St) (e : Err) (hopen : U.openForUpdate w top create prof xdev = .ok s)
+    (hscan : U.updateDir w { s with signOpt := sign.opt, topSigned := sign.topSigned, keyUsable := sign.keyUsable } path o
+      = .error e) :
+    updateCommand w post top path create prof xdev o setTs so doSave sign = .error e := by
+  simp only [updateCommand, hopen, hscan]
 
 open Gemato.Cli in
 /-- every write of a successful update command is a write of its save step -/
 theorem C06_writes_only_from_save (w : World) (post : Str → Option FileMeta) (top path : Str) (create : Bool)
     (prof : Prof.Profile) (xdev : Bool) (o : U.Opts) (setTs : Option (Ts × Bool)) (so : U.SaveOpts) (doSave : Bool)
-    (s' : U.St) (ws : List U.Write)
-    (h : updateCommand w post top path create prof xdev o setTs so doSave = .ok (s', ws)) :
-    ws = [] ∨ ∃ s s1, U.openForUpdate w top create prof xdev = .ok s ∧ U.updateDir w s path o = .ok s1 ∧
-      U.saveAll w post (applyTimestamp s1 setTs) so = .ok (s', ws) := by
+    (sign : SignCfg) (s' : U.St) (ws : List U.Write)
+    (h : updateCommand w post top path create prof xdev o setTs so doSave sign = .ok (s', ws)) :
+    ws = [] ∨ ∃ s1, U.saveAll w post (applyTimestamp s1 setTs) so = .ok (s', ws) := by
   unfold updateCommand at h
   cases ho : U.openForUpdate w top create prof xdev with
   | error e => simp [ho] at h
   | ok s =>
     simp only [ho] at h
-    cases hu : U.updateDir w s path o with
-    | error e => simp [hu] at h
-    | ok s1 =>
-      simp only [hu] at h
+    split at h
+    · cases h
+    · rename_i s1 hu
       by_cases hd : doSave = true
       · simp only [hd, if_true] at h
-        exact Or.inr ⟨s, s1, rfl, hu, h⟩
+        exact Or.inr ⟨s1, h⟩
       · simp only [hd, Bool.false_eq_true, if_false, Except.ok.injEq, Prod.mk.injEq] at h
         exact Or.inl h.2.symm
 
